@@ -86,7 +86,7 @@ PROPERTIES.update({
 })
 
 CRYPTO_ASM = "that no party without the NTLM session keys can produce a token which gss_unwrapex accepts is a cryptographic assumption (64-bit truncated HMAC-MD5 under RC4): outside any contract; the checks prove the acceptance condition, not unforgeability"
-DER_ASM = "ASN.1 DER/BER through the yasna crate and src/nla/asn1.rs is external: the TSRequest encoders/decoders are abstract functions (assumed to implement MS-CSSP)"
+DER_ASM = "ASN.1 DER/BER through the yasna crate and src/nla/asn1.rs is external: DER encode/decode are uninterpreted functions (prelude/asn1_cssp.rs parse_der_into / to_der: a parse may fail on any input, on success only the SHAPE of the structure is known and a SEQUENCE OF may be empty); the seven TSRequest builders/readers of cssp.rs are verified above that in unit csspder"
 PROPERTIES.update({
     "C01": dict(
         scope="cssp_connect (real body): the credentials message is built and written only at a point where the unsealed server reply equals, as little-endian integers, the subject public key of the certificate of THIS link plus one "
@@ -182,7 +182,7 @@ PROPERTIES.update({
         assumptions=[TLS_ASM, ENGINE_ASM, MCS_ASM, DER_ASM, HASH_ASM],
         design_ref="DESIGN.md §7 C17"),
     "C07": dict(
-        scope="cssp_connect, read_ts_* wrappers' callers, Ntlm::read_challenge_message (twin), get_payload_field, read_target_info, gss_unwrapex, authenticate_message, message_signature_ex, mac, Rc4::process (real bodies) are proved TOTAL for arbitrary server bytes: no overflow, "
+        scope="cssp_connect, read_ts_server_challenge / read_ts_validate / read_public_certificate and the four create_ts_* builders (real bodies, unit csspder: after the DER parse no index, cast or unwrap can fail: an empty negoTokens list and an undecodable certificate are errors), Ntlm::read_challenge_message (twin), get_payload_field, read_target_info, gss_unwrapex, authenticate_message, message_signature_ex, mac, Rc4::process (real bodies) are proved TOTAL for arbitrary server bytes: no overflow, "
               "no failing index / unwrap / slice, every loop has a measure (read_target_info decreases the remaining input: every AV pair consumes >= 4 bytes), payload (len, offset) pairs are checked against the message before slicing (r == subrange of the serialized message), "
               "AV values are bounded by the input length, token lists may be empty (error, no index panic), a CHALLENGE without timestamp is accepted",
         technique="contract-based deductive verification: Verus (z3) on function bodies extracted from /repo on every run",
